@@ -158,9 +158,19 @@ fn run_hist<T: MetricValue, S: AggregationStrategy + Default>(vals: &[T]) -> (Ve
     }
     let closed = h.close();
     let first = read(&closed);
+    // the other route by which a closed histogram is aggregated again: as the VALUE of a histogram
+    // (one `add_value` handing over all its observations at once)
+    let mut acc2: Histogram<HistogramClosed<T>, S> = Histogram::default();
+    acc2.add_value(&closed);
+    let via_add_value = read(&acc2.close());
     let mut acc: Histogram<T, S> = Histogram::default();
     <Histogram<T, S> as AggregateValue<HistogramClosed<T>>>::insert(&mut acc, closed);
     let again = read(&acc.close());
+    if !same(&via_add_value, &again) {
+        // the two routes disagree: hand back the one that is not the identity (the callers judge
+        // `again` against `first`)
+        return if same(&again, &first) { (first, via_add_value) } else { (first, again) };
+    }
     (first, again)
 }
 
